@@ -1214,7 +1214,12 @@ std::ostream& expression_t::print(std::ostream& os, bool old) const
     case MIN:
     case MAX:
     case FRACTION:
-        embrace_strict(os, old, get(0), precedence);
+        if (ASSIGN <= data->kind && data->kind <= ASS_RSHIFT)
+            // assignments group to the right and share their level with the inline-if in the grammar:
+            // an assignment or inline-if as the assigned-to operand needs parentheses
+            embrace(os, old, get(0), get_precedence(INLINE_IF));
+        else
+            embrace_strict(os, old, get(0), precedence);
         switch (data->kind) {
         case FRACTION: os << " : "; break;
         case PLUS: os << " + "; break;
@@ -1423,7 +1428,7 @@ std::ostream& expression_t::print(std::ostream& os, bool old) const
         os << ')';
         break;
 
-    case RATE: get(0).print(os, old) << '\''; break;
+    case RATE: embrace_strict(os, old, get(0), precedence) << '\''; break;
 
     case EF:
         os << "E<> ";
